@@ -276,7 +276,10 @@ Vector Spherical_Coordinates(double r, double theta, double phi, const Vector& a
 		return Spherical_Coordinates(r, theta, phi);
 	else
 	{
-		double aux = sqrt(1.0 - pow(ev[2], 2.0));
+		// Length of the projection of the unit axis onto the x-y plane (= sqrt(1 - ev[2]^2), but without cancellation close to -z).
+		double aux = sqrt(ev[0] * ev[0] + ev[1] * ev[1]);
+		if(aux == 0.0)	 // The axis is antiparallel to the z axis: mirror image of the default frame.
+			return Vector({-r * sin(theta) * cos(phi), r * sin(theta) * sin(phi), -r * cos(theta)});
 
 		double cos_theta = cos(theta);
 		double sin_theta = sqrt(1.0 - cos_theta * cos_theta);
